@@ -137,6 +137,18 @@ prop(
     thorough=dict(checks=20000, shards=16),
 )
 
+prop(
+    "C15",
+    title="Pointer lookups on typed documents agree with their JSON form",
+    technique="property-based testing (rapid), differential oracle: every JSON pointer of a generated document is evaluated on the typed decoding and on the generic decoding of its encoding; results compared as JSON values",
+    rule=VOCAB_RULE + "Roots: Swagger documents (weight 3) and every other listed kind as a root of its own. Every pointer of the encoded document is enumerated (hundreds to thousands per document); excluded: pointers with a $ref token, and x- members of contact/license/externalDocs/xml objects (kinds the statement does not list). Non-trivial = pointer has >=3 tokens or an escaped token (counted per document and, sampled 1 in 7, per pointer); distinct by hash of kind+pointer / kind+document",
+    design_ref="DESIGN.md §4 C15",
+    level_text="exploration: ~10^5 (quick) to ~10^7 (thorough) typed lookups, each compared with the lookup on the document's own JSON form; an error or panic on the typed side is a failure; tokens needing ~0/~1, status codes, `default`, extension members and unknown schema keywords are all produced by the vocabulary generator",
+    level_note="trusts github.com/go-openapi/jsonpointer on generic (map/slice) values as the reference evaluator",
+    quick=dict(checks=1500, shards=4),
+    thorough=dict(checks=15000, shards=16),
+)
+
 
 def manifest():
     allids = []
